@@ -59,6 +59,21 @@ NEEDS = {
  "C18-9": "[T;N] with N >= 2 and value-dependent element sizes: serialized_size = N * first element",
  "C18-10": "a String longer than 2^20 bytes: the reservation cap misused as the read length",
  "C18-11": "BigUint payload written with write instead of write_all: short writes, Interrupted",
+ "C05-12": "plain-bucket MSM (verif-hooks) with at least one scalar equal to 1: accumulator of unit-scalar bases shadowed",
+ "C05-13": "msm_chunks with a scalar stream longer than 2^20 whose later chunk has bases different from the first chunk's",
+ "C05-14": "msm_chunks with an empty scalar stream: (len-1)/step+1 underflows",
+ "C09-12": "twisted Edwards PROJECTIVE value equal to the order-two point (0,-1): normalisation tests x == 0 and writes the identity",
+ "C09-13": "cubic extension decoded with non-empty flags (coordinates of points over Fp3): a flag-shaped bit in the top byte of c0 or c1 is accepted",
+ "C09-14": "twisted Edwards curve with a != -1 (Bandersnatch, ed_on_bn254, curve25519), compressed, x != 0: decompression formula specialised to a = -1",
+ "C10-12": "Cow-wrapped points inside a batch-validated container: batch_check filtered to Cow::Borrowed",
+ "C10-13": "ark-bls12-381 G2 compressed reader uses read: truncated input accepted, short reads rejected",
+ "C10-14": "Vec/array of twisted Edwards PROJECTIVE points with the invalid element at index 0: batch_check's emptiness probe consumes it",
+ "C14-12": "parallel_fft coefficient index uses a shift: mixed-radix sizes with a factor 3 on pools 2 <= 2^floor(log2 p) < 2^b",
+ "C14-13": "parallel digit computation skips blocks of all-zero scalars: later digits paired with the wrong bases",
+ "C14-14": "parallel batch_check returns Ok when size_hint().0 == 0: nested containers (flat_map/filter iterators) never checked",
+ "C18-12": "Option::batch_check stops at the first None (as C10-4, found independently)",
+ "C18-13": "BTreeMap input with a repeated key: assert_eq on the length panics",
+ "C18-14": "String with a non-ASCII character: length prefix counts characters",
 }
 conf = {}
 for f in ['/verif/seeded/confirmations.txt']:
@@ -74,7 +89,7 @@ for d in sorted(glob.glob('/verif/seeded/C*')):
     caught = {p: (r['exit'] == 1 and r['VIOLATION_lines'] > 0) for p, r in cr.items()}
     meta = {
         "id": sid, "property": sid.split('-')[0], "title": title,
-        "written_by": "independent sub-agent given only the property text and its own scratch worktree (round %d)" % (1 if int(sid.split('-')[1]) <= 2 else 2 if int(sid.split('-')[1]) <= 5 else 3 if int(sid.split('-')[1]) <= 8 else 4),
+        "written_by": "independent sub-agent given only the property text and its own scratch worktree (round %d)" % (1 if int(sid.split('-')[1]) <= 2 else 2 if int(sid.split('-')[1]) <= 5 else 3 if int(sid.split('-')[1]) <= 8 else 4 if int(sid.split('-')[1]) <= 11 else 5),
         "needs_to_manifest": NEEDS.get(sid, ""),
         "files": ["patch.diff", "demo.rs", "notes.md"] + (["demo_crate/"] if os.path.isdir(d+'/demo_crate') else []) + (["example_replay.json"] if os.path.exists(d+'/example_replay.json') else []),
         "my_confirmation": conf.get(sid, "pending"),
